@@ -51,3 +51,9 @@ m('c16-swap-xy', 'mofun/atoms.py', "float(a['x3']), float(a['y3']), float(a['z3'
 m('c16-first-ref-twice', 'mofun/atoms.py', 'bonds = [(id_to_idx[b1], id_to_idx[b2]) for (b1,b2) in bonds_by_ids]', 'bonds = [(id_to_idx[b1], id_to_idx[b1]) for (b1,b2) in bonds_by_ids]', 'C16')
 m('c16-id-number-parse', 'mofun/atoms.py', 'id_to_idx = {id:i for i, id in enumerate(ids)}', 'id_to_idx = {id:int(id[1:]) - 1 for i, id in enumerate(ids)}', 'C16', note='assumes ids are a1..aN in order')
 m('c16-harmless-rename', 'mofun/atoms.py', 'id_to_idx = {id:i for i, id in enumerate(ids)}', 'id_to_idx = {atom_id:k for k, atom_id in enumerate(ids)}', 'C16', 'pass')
+# ---- C13
+m('c13-bond-id-0-based', 'mofun/atoms.py', 'f.write(" %d %d %d %d   # %s\\n" % (i + 1, self.bond_types[i] + 1, *(np.array(tup) + 1)', 'f.write(" %d %d %d %d   # %s\\n" % (i + 1, self.bond_types[i] + 1, *(np.array(tup))', 'C13')
+m('c13-full-charge-group-swapped', 'mofun/atoms.py', '(i + 1, self.groups[i] + 1, self.atom_types[i] + 1, self.charges[i], x, y, z,', '(i + 1, self.atom_types[i] + 1, self.groups[i] + 1, self.charges[i], x, y, z,', 'C13')
+m('c13-tilt-order', 'mofun/atoms.py', '(self.cell[1,0], self.cell[2,0], self.cell[2,1]))', '(self.cell[1,0], self.cell[2,1], self.cell[2,0]))', 'C13')
+m('c13-angle-count', 'mofun/atoms.py', "f.write('%d angles\\n' % len(self.angle_types))", "f.write('%d angles\\n' % len(self.bond_types))", 'C13')
+m('c13-reader-type-col', 'mofun/atoms.py', '            atom_types = np.array(atoms[:, 2] - 1, dtype=int)\n            charges = np.array(atoms[:, 3], dtype=float)', '            atom_types = np.array(atoms[:, 2], dtype=int) - 1\n            charges = np.array(atoms[:, 3], dtype=float)', 'C13', 'pass', note='equivalent reader refactoring')
